@@ -111,9 +111,14 @@ REGEXES = [
 OPS = {'==': lambda a, b: a == b, '!=': lambda a, b: a != b, '>': lambda a, b: a > b, '<': lambda a, b: a < b,
        '>=': lambda a, b: a >= b, '<=': lambda a, b: a <= b}
 
+import numbers as _numbers  # noqa: E402
+import collections.abc as _abc  # noqa: E402
+# (classes with a metaclass of their own - ABCs - are type rules like any other class)
 TYPE_SAMPLES = {int: [3, 0, -7], str: ['s', '', 'abc'], float: [1.5, 0.0], list: [[1], []], dict: [{}, {'q': 1}],
-                object: [None, 'o', 4, (1,)], tuple: [(1,), ()], bool: [True, False], type(None): [None]}
-WRONG = {int: 'str!', str: 12345, float: 'f', list: (9,), dict: [1], tuple: [9], bool: 'b', type(None): 0, object: None}
+                object: [None, 'o', 4, (1,)], tuple: [(1,), ()], bool: [True, False], type(None): [None],
+                _numbers.Number: [3, 2.5, True], _abc.Mapping: [{}, {'q': 1}], _abc.Sequence: [[1], (2,), 'txt']}
+WRONG = {int: 'str!', str: 12345, float: 'f', list: (9,), dict: [1], tuple: [9], bool: 'b', type(None): 0, object: None,
+         _numbers.Number: 'five', _abc.Mapping: [('q', 1)], _abc.Sequence: {1}}
 
 
 # ---------------------------------------------------------------------------
@@ -132,7 +137,7 @@ def gen_pat(rng, depth, ctx='any'):
     if k == 'lit':
         return ('lit', rng.choice([1, 0, 'a', 'key', None, 2.5, True, '']))
     if k == 'type':
-        return ('type', rng.choice([int, str, float, list, dict, object, tuple]))
+        return ('type', rng.choice([int, str, float, list, dict, object, tuple, _numbers.Number, _abc.Mapping, _abc.Sequence]))
     if k == 'regex':
         return ('regex', rng.randrange(len(REGEXES)))
     if k == 'pred':
